@@ -372,8 +372,25 @@ fn float_sequences(rng: &mut Rng) -> Vec<(String, Vec<f64>)> {
 }
 
 fn xor_roundtrips(rng: &mut Rng, out: &mut CaseOut) {
+    let all: Vec<u32> = (0..=52).collect();
+    xor_roundtrips_with(rng, out, &[0, 1, 100], &all)
+}
+
+/// Interpreter-lane slice of the codec round trips (see props/sanlane.rs): the same oracles, a fraction of the grid per round.
+pub fn tiny(rng: &mut Rng, out: &mut CaseOut, round: u64) {
+    event_buffer_roundtrips(rng, out, 2);
+    rowapi_transitions(rng, out, 4);
+    if round % 4 == 0 {
+        response_roundtrips(rng, out);
+    }
+    let regret = [0u32, 1, 100][(round % 3) as usize];
+    let mantissas: Vec<u32> = (0..=52u32).filter(|m| *m == 0 || *m == 52 || (*m as u64) % 8 == round % 8).collect();
+    xor_roundtrips_with(rng, out, &[regret], &mantissas);
+}
+
+fn xor_roundtrips_with(rng: &mut Rng, out: &mut CaseOut, regrets: &[u32], mantissas: &[u32]) {
     for (name, xs) in float_sequences(rng) {
-        for regret in [0u32, 1, 100] {
+        for &regret in regrets {
             // exact
             let enc = xor_float::double::encode(&xs, regret, None);
             out.eval(1);
@@ -391,7 +408,7 @@ fn xor_roundtrips(rng: &mut Rng, out: &mut CaseOut) {
                 Err(e) => out.fail(Failure::new("wire", "xor_decode_error", &name, format!("{:?}", e), case.clone())),
             }
             // reduced mantissa: sign, exponent and the leading m mantissa bits survive
-            for m in 0..=52u32 {
+            for &m in mantissas {
                 let enc = xor_float::double::encode(&xs, regret, Some(m));
                 out.eval(1);
                 match xor_float::double::decode(&enc) {
